@@ -90,28 +90,38 @@ Section Scan.
   (** the condition reads the trace at the current index: it yields a value whose truth depends on
       the index only and leaves the position alone (it may change other state, e.g. fill caches) *)
   Variable P : Z -> bool.
-  Hypothesis Hc : forall st i m, at1 st tid i m ->
-    exists v st', ev c st = Ok v st' /\ at1 st' tid i m /\ truthy st' v = P i.
+  (** [Inv] is whatever the condition relies on and nothing in a scan disturbs - typically "the
+      signal data of the trace is D"; moving the index keeps it.  [Inv := fun _ => True] is allowed. *)
+  Variable Inv : state -> Prop.
+  Hypothesis Inv_move : forall st t j, Inv st -> c_traces (st_cont st) = [(tid, t)] -> 0 <= j <= tr_max t ->
+    Inv (set1 st tid (set_index t j)).
+  Definition at1i (st : state) (i m : Z) : Prop := Inv st /\ at1 st tid i m.
+  Hypothesis Hc : forall st i m, at1i st i m ->
+    exists v st', ev c st = Ok v st' /\ at1i st' i m /\ truthy st' v = P i.
+
+  Lemma at1i_set1 st t i : Inv st -> c_traces (st_cont st) = [(tid, t)] -> tr_tid t = tid -> 0 <= i <= tr_max t ->
+    at1i (set1 st tid (set_index t i)) i (tr_max t).
+  Proof. intros HI Ht E Hr. split; [apply Inv_move; assumption|apply at1_set1, E]. Qed.
 
   Lemma find_walk_spec n : forall st i m acc,
-    at1 st tid i m -> 0 <= i <= m -> (Z.to_nat (m - i) < n)%nat ->
+    at1i st i m -> 0 <= i <= m -> (Z.to_nat (m - i) < n)%nat ->
     exists st', find_walk ev n tid c acc st = Ok (acc +++ filter P (zrange_nat i (S (Z.to_nat (m - i))))) st'
-                /\ at1 st' tid m m.
+                /\ at1i st' m m.
   Proof.
     induction n as [|n IH]; intros st i m acc Hat Hr Hn; [lia|].
-    destruct (Hc _ _ _ Hat) as (v & st1 & Hev & (t1 & Ht1 & Etid & Ei & Em) & Htr).
+    destruct (Hc _ _ _ Hat) as (v & st1 & Hev & (HI1 & t1 & Ht1 & Etid & Ei & Em) & Htr).
     cbn [find_walk]. unfold bind at 1. rewrite Hev. unfold bind at 1, get_st at 1.
     unfold bind at 1. rewrite (trace_of_1 _ _ _ Ht1). rewrite Htr. unfold trace_step. rewrite Ei, Em.
     destruct (Z.ltb_spec i m) as [Hlt|Hge].
     - assert (X : ((i + 1 <? 0) || (m <? i + 1)) = false) by lia. rewrite X.
       unfold bind at 1. rewrite (replace_1 _ _ _ _ Ht1) by exact Etid.
       destruct (IH (set1 st1 tid (set_index t1 (i + 1))) (i + 1) m (if P i then acc +++ [i] else acc)) as (st' & Hw & Hat');
-        [subst m; apply at1_set1, Etid|lia|lia|].
+        [subst m; apply at1i_set1; try assumption; lia|lia|lia|].
       exists st'. split; [|exact Hat']. rewrite Hw. f_equal.
       replace (Z.to_nat (m - i)) with (S (Z.to_nat (m - (i + 1)))) by lia.
       cbn [zrange_nat filter]. destruct (P i); [rewrite <- app_assoc|]; reflexivity.
     - assert (X : ((i + 1 <? 0) || (m <? i + 1)) = true) by lia. rewrite X.
-      assert (Him : i = m) by lia. rewrite Him in *. exists st1. split; [|exists t1; repeat split; assumption].
+      assert (Him : i = m) by lia. rewrite Him in *. exists st1. split; [|split; [assumption|exists t1; repeat split; assumption]].
       rewrite Z.sub_diag. cbn [Z.to_nat zrange_nat filter]. unfold ret. destruct (P m); [reflexivity|rewrite app_nil_r; reflexivity].
   Qed.
 
@@ -125,12 +135,12 @@ Section Scan.
   (** (find c), one trace: exactly the indices >= the current one at which c is truthy, ascending,
       without duplicates; the index is what it was *)
   Theorem find_single fuel st i m :
-    at1 st tid i m -> 0 <= i <= m -> (Z.to_nat (m - i) < fuel)%nat ->
+    at1i st i m -> 0 <= i <= m -> (Z.to_nat (m - i) < fuel)%nat ->
     exists st', op_find fuel ev [c] st = Ok (PL (map VInt (filter P (zrange_nat i (S (Z.to_nat (m - i))))))) st'
-                /\ at1 st' tid i m.
+                /\ at1i st' i m.
   Proof.
-    intros Hat Hr Hf. pose proof Hat as (t & Ht & Etid & Ei & Em).
-    destruct (find_walk_spec fuel st i m [] Hat Hr Hf) as (st1 & Hw & (t1 & Ht1 & Etid1 & Ei1 & Em1)).
+    intros Hat Hr Hf. pose proof Hat as (HI & t & Ht & Etid & Ei & Em).
+    destruct (find_walk_spec fuel st i m [] Hat Hr Hf) as (st1 & Hw & (HI1 & t1 & Ht1 & Etid1 & Ei1 & Em1)).
     unfold op_find. cbn [List.length Nat.eqb assert arg0]. unfold bind at 1. unfold ret at 1. cbv beta iota.
     unfold bind at 1. unfold ret at 1. cbv beta iota. unfold bind at 1, get_st at 1. rewrite Ht.
     cbn [mapM fst]. unfold bind at 1. unfold bind at 1. unfold bind at 1. rewrite (trace_of_1 _ _ _ Ht).
@@ -138,7 +148,7 @@ Section Scan.
     unfold ret, bind. cbn [List.concat app]. rewrite app_nil_r.
     eexists. split.
     - rewrite (asc_dedup _ i []), (asc_isort _ i); try apply filter_range_asc; [reflexivity|intros x []].
-    - rewrite Ei, <- Em1. apply at1_set1, Etid1.
+    - rewrite Ei, <- Em1. apply at1i_set1; try assumption; lia.
   Qed.
 
   Lemma cont_indices_1 st t : c_traces (st_cont st) = [(tid, t)] -> tr_tid t = tid ->
@@ -146,12 +156,12 @@ Section Scan.
   Proof. intros H E. unfold cont_indices. rewrite H. cbn [map snd]. rewrite E. reflexivity. Qed.
 
   Lemma findg_loop_spec n : forall st i m acc,
-    at1 st tid i m -> 0 <= i <= m -> (Z.to_nat (m - i) < n)%nat ->
+    at1i st i m -> 0 <= i <= m -> (Z.to_nat (m - i) < n)%nat ->
     exists st', findg_loop ev n c acc st = Ok (acc +++ map VInt (filter P (zrange_nat i (S (Z.to_nat (m - i)))))) st'
-                /\ at1 st' tid m m.
+                /\ at1i st' m m.
   Proof.
     induction n as [|n IH]; intros st i m acc Hat Hr Hn; [lia|].
-    destruct (Hc _ _ _ Hat) as (v & st1 & Hev & (t1 & Ht1 & Etid & Ei & Em) & Htr).
+    destruct (Hc _ _ _ Hat) as (v & st1 & Hev & (HI1 & t1 & Ht1 & Etid & Ei & Em) & Htr).
     cbn [findg_loop]. unfold bind at 1. rewrite Hev. unfold bind at 1, get_st at 1. rewrite Htr.
     rewrite (cont_indices_1 _ _ Ht1 Etid).
     set (acc' := if P i then acc +++ [VInt i] else acc).
@@ -160,11 +170,11 @@ Section Scan.
     unfold bind at 1. rewrite Hacc. unfold bind at 1. rewrite (step_all_1 _ _ _ Ht1 Etid) by lia. rewrite Ei, Em.
     destruct (Z.ltb_spec i m) as [Hlt|Hge].
     - destruct (IH (set1 st1 tid (set_index t1 (i + 1))) (i + 1) m acc') as (st' & Hw & Hat');
-        [subst m; apply at1_set1, Etid|lia|lia|].
+        [subst m; apply at1i_set1; try assumption; lia|lia|lia|].
       exists st'. split; [|exact Hat']. rewrite Hw. f_equal.
       replace (Z.to_nat (m - i)) with (S (Z.to_nat (m - (i + 1)))) by lia.
       cbn [zrange_nat filter]. unfold acc'. destruct (P i); [rewrite <- app_assoc|]; reflexivity.
-    - assert (Him : i = m) by lia. subst acc'. rewrite Him in *. exists st1. split; [|exists t1; repeat split; assumption].
+    - assert (Him : i = m) by lia. subst acc'. rewrite Him in *. exists st1. split; [|split; [assumption|exists t1; repeat split; assumption]].
       rewrite Z.sub_diag. cbn [Z.to_nat zrange_nat filter]. unfold ret.
       destruct (P m); [reflexivity|rewrite app_nil_r; reflexivity].
   Qed.
@@ -178,23 +188,23 @@ Section Scan.
 
   (** (find/g c), one trace: the same positions, as indices, in ascending order; index restored *)
   Theorem find_g_single fuel st i m :
-    at1 st tid i m -> 0 <= i <= m -> (Z.to_nat (m - i) < fuel)%nat ->
+    at1i st i m -> 0 <= i <= m -> (Z.to_nat (m - i) < fuel)%nat ->
     exists st', op_find_g fuel ev [c] st = Ok (PL (map VInt (filter P (zrange_nat i (S (Z.to_nat (m - i))))))) st'
-                /\ at1 st' tid i m.
+                /\ at1i st' i m.
   Proof.
-    intros Hat Hr Hf. pose proof Hat as (t & Ht & Etid & Ei & Em).
-    destruct (findg_loop_spec fuel st i m [] Hat Hr Hf) as (st1 & Hw & (t1 & Ht1 & Etid1 & Ei1 & Em1)).
+    intros Hat Hr Hf. pose proof Hat as (HI & t & Ht & Etid & Ei & Em).
+    destruct (findg_loop_spec fuel st i m [] Hat Hr Hf) as (st1 & Hw & (HI1 & t1 & Ht1 & Etid1 & Ei1 & Em1)).
     unfold op_find_g. cbn [List.length Nat.eqb assert arg0]. unfold bind at 1. unfold ret at 1. cbv beta iota.
     unfold bind at 1. unfold ret at 1. cbv beta iota. unfold bind at 1, get_st at 1.
     rewrite (cont_indices_1 _ _ Ht Etid). unfold bind at 1. rewrite Hw. unfold bind.
     rewrite (restore_saved_1 _ _ _ Ht1 Etid1). unfold ret. cbn [app].
-    eexists. split; [reflexivity|]. rewrite Ei, <- Em1. apply at1_set1, Etid1.
+    eexists. split; [reflexivity|]. rewrite Ei, <- Em1. apply at1i_set1; try assumption; lia.
   Qed.
 
   (** * whenever: refinement to a for-loop over the indices i..m with absolute positioning *)
   Variable body : list val.
   (** the body may print, define and assign, but is back at the index when it is done *)
-  Hypothesis Hb : forall st i m vs st', at1 st tid i m -> eval_args ev body st = Ok vs st' -> at1 st' tid i m.
+  Hypothesis Hb : forall st i m vs st', at1i st i m -> eval_args ev body st = Ok vs st' -> at1i st' i m.
 
   (** one visit: evaluate the condition, and the body exactly when it is truthy *)
   Definition visit (last : val) : M val :=
@@ -227,8 +237,8 @@ Section Scan.
     - unfold ret. destruct (step_all_m 1 st1) as [[|x r] st3| | |]; reflexivity.
   Qed.
 
-  Lemma visit_keeps last st i m : at1 st tid i m ->
-    match visit last st with Ok _ st' => at1 st' tid i m | _ => True end.
+  Lemma visit_keeps last st i m : at1i st i m ->
+    match visit last st with Ok _ st' => at1i st' i m | _ => True end.
   Proof.
     intros Hat. destruct (Hc _ _ _ Hat) as (v & st1 & Hev & Hat1 & _).
     unfold visit, bind. rewrite Hev. unfold get_st. destruct (truthy st1 v); [|exact Hat1].
@@ -245,36 +255,37 @@ Section Scan.
   Qed.
 
   Lemma wh_spec_keeps m k : forall i st last r st1,
-    at1 st tid i m -> wh_spec (zrange_nat i k) last st = Ok r st1 -> exists j, at1 st1 tid j m.
+    0 <= i -> i + Z.of_nat k <= m + 1 ->
+    at1i st i m -> wh_spec (zrange_nat i k) last st = Ok r st1 -> exists j, at1i st1 j m.
   Proof.
-    induction k as [|k IHk]; intros i st last r st1 Hat Ew.
+    induction k as [|k IHk]; intros i st last r st1 Hi0 Hik Hat Ew.
     - cbn [zrange_nat wh_spec] in Ew. injection Ew as _ <-. exists i. exact Hat.
-    - cbn [zrange_nat wh_spec] in Ew. unfold bind at 1 in Ew. pose proof Hat as (t & Ht & Etid & Ei & Em).
+    - cbn [zrange_nat wh_spec] in Ew. unfold bind at 1 in Ew. pose proof Hat as (HI & t & Ht & Etid & Ei & Em).
       rewrite (set_trace_index_1 _ _ _ Ht Etid) in Ew. rewrite <- Ei, set_index_same, (set1_same _ _ _ Ht) in Ew.
       unfold bind at 1 in Ew. pose proof (visit_keeps last st i m Hat) as Hv.
       destruct (visit last st) as [l st2| | |]; try discriminate.
-      destruct Hv as (t2 & Ht2 & Etid2 & Ei2 & Em2).
+      destruct Hv as (HI2 & t2 & Ht2 & Etid2 & Ei2 & Em2).
       destruct k as [|k'].
-      + cbn [zrange_nat wh_spec] in Ew. injection Ew as _ <-. exists i. exists t2. repeat split; assumption.
-      + apply (IHk (i + 1) (set1 st2 tid (set_index t2 (i + 1))) l r st1).
-        * rewrite <- Em2. apply at1_set1, Etid2.
+      + cbn [zrange_nat wh_spec] in Ew. injection Ew as _ <-. exists i. split; [assumption|exists t2; repeat split; assumption].
+      + apply (IHk (i + 1) (set1 st2 tid (set_index t2 (i + 1))) l r st1); [lia|lia| |].
+        * rewrite <- Em2. apply at1i_set1; try assumption; lia.
         * cbn [zrange_nat]. cbn [zrange_nat] in Ew. rewrite (wh_spec_reposition _ _ _ _ _ Ht2 Etid2). rewrite Ei in Ew. exact Ew.
   Qed.
 
   Theorem whenever_loop_refines n : forall st i m last,
-    at1 st tid i m -> 0 <= i <= m -> (Z.to_nat (m - i) < n)%nat ->
+    at1i st i m -> 0 <= i <= m -> (Z.to_nat (m - i) < n)%nat ->
     whenever_loop ev n c body last st = wh_spec (zrange_nat i (S (Z.to_nat (m - i)))) last st.
   Proof.
     induction n as [|n IH]; intros st i m last Hat Hr Hn; [lia|].
     rewrite whenever_loop_unfold. cbn [zrange_nat wh_spec]. unfold bind at 1.
-    pose proof Hat as (t & Ht & Etid & Ei & Em).
+    pose proof Hat as (HI & t & Ht & Etid & Ei & Em).
     rewrite (set_trace_index_1 _ _ _ Ht Etid). rewrite <- Ei, set_index_same, (set1_same _ _ _ Ht). rewrite Ei.
     unfold bind at 1. pose proof (visit_keeps last st i m Hat) as Hv.
     destruct (visit last st) as [last' st2| | |]; try reflexivity.
-    destruct Hv as (t2 & Ht2 & Etid2 & Ei2 & Em2).
+    destruct Hv as (HI2 & t2 & Ht2 & Etid2 & Ei2 & Em2).
     rewrite (step_all_1 _ _ _ Ht2 Etid2) by lia. rewrite Ei2, Em2.
     destruct (Z.ltb_spec i m) as [Hlt|Hge].
-    - rewrite (IH _ (i + 1) m); [|rewrite <- Em2; apply at1_set1, Etid2|lia|lia].
+    - rewrite (IH _ (i + 1) m); [|rewrite <- Em2; apply at1i_set1; try assumption; lia|lia|lia].
       replace (Z.to_nat (m - i)) with (S (Z.to_nat (m - (i + 1)))) by lia.
       cbn [zrange_nat]. apply (wh_spec_reposition _ _ _ _ _ Ht2 Etid2).
     - assert (Him : i = m) by lia. rewrite Him, Z.sub_diag. reflexivity.
@@ -282,12 +293,12 @@ Section Scan.
 
   (** (whenever c body...), one trace: the loop over i..m, then the index is put back *)
   Theorem whenever_single fuel st i m :
-    at1 st tid i m -> 0 <= i <= m -> (Z.to_nat (m - i) < fuel)%nat -> body <> [] ->
+    at1i st i m -> 0 <= i <= m -> (Z.to_nat (m - i) < fuel)%nat -> body <> [] ->
     op_whenever fuel ev (c :: body) st =
     (r <- wh_spec (zrange_nat i (S (Z.to_nat (m - i)))) VNone ;; set_trace_index tid i ;;; ret r) st.
   Proof.
     intros Hat Hr Hf Hne.
-    pose proof Hat as (t & Ht & Etid & Ei & Em).
+    pose proof Hat as (HI & t & Ht & Etid & Ei & Em).
     unfold op_whenever.
     assert (Hlen : (2 <=? zlen (c :: body)) = true).
     { clear - Hne. destruct body; [contradiction|]. unfold zlen. cbn [List.length]. lia. }
@@ -295,10 +306,58 @@ Section Scan.
     unfold bind at 1, get_st at 1. rewrite (cont_indices_1 _ _ Ht Etid), Ei.
     unfold bind. rewrite (whenever_loop_refines fuel st i m VNone Hat Hr Hf).
     destruct (wh_spec (zrange_nat i (S (Z.to_nat (m - i)))) VNone st) as [r st1| | |] eqn:Ew; try reflexivity.
-    destruct (wh_spec_keeps _ _ _ _ _ _ _ Hat Ew) as (j & t1 & Ht1 & Etid1 & Ei1 & Em1).
+    destruct (wh_spec_keeps m (S (Z.to_nat (m - i))) i st VNone r st1 ltac:(lia) ltac:(lia) Hat Ew) as (j & HI1 & t1 & Ht1 & Etid1 & Ei1 & Em1).
     rewrite (restore_saved_1 _ _ _ Ht1 Etid1), (set_trace_index_1 _ _ _ Ht1 Etid1). reflexivity.
   Qed.
 End Scan.
+
+(** * (find c) is pointwise: the indices at which c, evaluated on its own at that index, is truthy *)
+Section Pointwise.
+  Variable ev : val -> M val.
+  Variable tid : string.
+  Variable c : val.
+  Variable st0 : state.
+  Variable t0 : trace.
+  Hypothesis H0 : c_traces (st_cont st0) = [(tid, t0)].
+  Hypothesis Htid : tr_tid t0 = tid.
+  (** the interpreter state with the trace moved to index j, nothing else changed *)
+  Definition at_idx (j : Z) : state := set1 st0 tid (set_index t0 j).
+  (** c can be evaluated at every index and leaves the state exactly as it was *)
+  Hypothesis Hpure : forall j, 0 <= j <= tr_max t0 -> exists v, ev c (at_idx j) = Ok v (at_idx j).
+  Definition truth_at (j : Z) : bool :=
+    match ev c (at_idx j) with Ok v s => truthy s v | _ => false end.
+
+  Definition on_orbit (st : state) : Prop := exists j, 0 <= j <= tr_max t0 /\ st = at_idx j.
+
+  Lemma orbit_move st t j : on_orbit st -> c_traces (st_cont st) = [(tid, t)] -> 0 <= j <= tr_max t ->
+    on_orbit (set1 st tid (set_index t j)).
+  Proof.
+    intros (j0 & Hj0 & ->) Ht Hj. unfold at_idx, set1 in Ht. simpl in Ht. injection Ht as <-.
+    exists j. split; [exact Hj|]. reflexivity.
+  Qed.
+
+  Lemma orbit_cond : forall st i m, at1i tid on_orbit st i m ->
+    exists v st', ev c st = Ok v st' /\ at1i tid on_orbit st' i m /\ truthy st' v = truth_at i.
+  Proof.
+    intros st i m ((j & Hj & ->) & t & Ht & Et & Ei & Em).
+    unfold at_idx, set1 in Ht. simpl in Ht. injection Ht as <-. cbn [tr_index set_index] in Ei. subst j.
+    destruct (Hpure i Hj) as [v Hv]. exists v, (at_idx i). split; [exact Hv|]. split.
+    - split; [exists i; split; [exact Hj|reflexivity]|]. exists (set_index t0 i). repeat split; [exact Htid|exact Em].
+    - unfold truth_at. rewrite Hv. reflexivity.
+  Qed.
+
+  Theorem find_pointwise fuel i :
+    0 <= i <= tr_max t0 -> (Z.to_nat (tr_max t0 - i) < fuel)%nat ->
+    op_find fuel ev [c] (at_idx i) =
+    Ok (PL (map VInt (filter truth_at (zrange_nat i (S (Z.to_nat (tr_max t0 - i))))))) (at_idx i).
+  Proof.
+    intros Hr Hf.
+    destruct (find_single ev tid c truth_at on_orbit orbit_move orbit_cond fuel (at_idx i) i (tr_max t0))
+      as (st' & Hfind & (j & Hj & ->) & t & Ht & Et & Ei & Em); [|exact Hr|exact Hf|].
+    - split; [exists i; split; [exact Hr|reflexivity]|]. exists (set_index t0 i). repeat split. exact Htid.
+    - unfold at_idx, set1 in Ht. simpl in Ht. injection Ht as <-. cbn [tr_index set_index] in Ei. subst j. exact Hfind.
+  Qed.
+End Pointwise.
 
 (** * position neutrality with any number of traces *)
 Definition trs (st : state) : list (string * trace) := c_traces (st_cont st).
@@ -527,11 +586,11 @@ Definition ev_even (_ : val) : M val :=
             | _ => Er EOther st
             end.
 
-Lemma ev_even_ok tid c : forall st i m, at1 st tid i m ->
-  exists v st', ev_even c st = Ok v st' /\ at1 st' tid i m /\ truthy st' v = Z.even i.
+Lemma ev_even_ok tid c : forall st i m, at1i tid (fun _ => True) st i m ->
+  exists v st', ev_even c st = Ok v st' /\ at1i tid (fun _ => True) st' i m /\ truthy st' v = Z.even i.
 Proof.
-  intros st i m (t & Ht & Etid & Ei & Em). exists (VBool (Z.even i)), st. unfold ev_even, trs. rewrite Ht, Ei.
-  split; [reflexivity|]. split; [exists t; repeat split; assumption|reflexivity].
+  intros st i m (_ & t & Ht & Etid & Ei & Em). exists (VBool (Z.even i)), st. unfold ev_even, trs. rewrite Ht, Ei.
+  split; [reflexivity|]. split; [split; [exact I|exists t; repeat split; assumption]|reflexivity].
 Qed.
 
 Definition demo_trace : trace := mkTrace "t" "f" 1 4 [0;1;2;3;4] [0;1;2;3;4] None [] [] [] [] [].
@@ -540,8 +599,33 @@ Definition demo_state : state :=
 
 Example find_demo : exists st', op_find 10 ev_even [VNone] demo_state = Ok (PL [VInt 2; VInt 4]) st' /\ at1 st' "t" 1 4.
 Proof.
-  apply (find_single ev_even "t" VNone Z.even (ev_even_ok "t" VNone) 10 demo_state 1 4).
-  - exists demo_trace. repeat split.
+  destruct (find_single ev_even "t" VNone Z.even (fun _ => True) (fun _ _ _ _ _ _ => I) (ev_even_ok "t" VNone) 10 demo_state 1 4)
+    as (st' & H & _ & Hat).
+  - split; [exact I|]. exists demo_trace. repeat split.
   - lia.
   - cbn. lia.
+  - exists st'. split; assumption.
+Qed.
+
+(** * the premise of [find_pointwise] is met by the real evaluator on a real condition *)
+From WalModel Require Import Api.
+Definition sig_trace : trace :=
+  mkTrace "t" "f" 0 4 [0;10;20;30;40] [0;10;20;30;40] None ["a"] [("a", ["0";"1";"1";"0";"1"]%string)] [] [("a", 1)] [].
+Definition sig_state : state := mkState [] O [] (mkCont [("t", sig_trace)] 1 []) "" "" [] 0 [] [].
+Definition sig_cond : val := WL [VOp OEq; VSym "a" None; VInt 1].
+
+Lemma sig_cond_pure : forall j, 0 <= j <= tr_max sig_trace ->
+  exists v, ev0 sig_cond (at_idx "t" sig_state sig_trace j) = Ok v (at_idx "t" sig_state sig_trace j).
+Proof.
+  intros j Hj. cbn [tr_max sig_trace] in Hj.
+  assert (E : j = 0 \/ j = 1 \/ j = 2 \/ j = 3 \/ j = 4) by lia.
+  destruct E as [->|[->|[->|[->| ->]]]]; eexists; vm_compute; reflexivity.
+Qed.
+
+Example find_on_real_evaluator :
+  op_find 10 ev0 [sig_cond] (at_idx "t" sig_state sig_trace 0) =
+  Ok (PL [VInt 1; VInt 2; VInt 4]) (at_idx "t" sig_state sig_trace 0).
+Proof.
+  rewrite (find_pointwise ev0 "t" sig_cond sig_state sig_trace eq_refl sig_cond_pure 10 0); [|cbn; lia|cbn; lia].
+  f_equal.
 Qed.
